@@ -284,7 +284,12 @@ func (u *Unit) assumeTypeInv(x *Term, t types.Type, st *State, guard *Term) {
 	if x.Op == "int" || x.Op == "bool" || x.Op == "strlit" || x.Op == "ctor" && x.Sort == SRef && len(x.Args) == 2 && x.Args[0].Op == "int" {
 		return
 	}
-	key := fmt.Sprintf("%d|%d", x.id, st.alloc.id)
+	bound := st.alloc
+	if x.Op == "select" && x.Args[0].Op == "const" && strings.HasPrefix(x.Args[0].Name, "H0_") {
+		// read from the untouched entry heap: everything it holds existed before the call
+		bound = u.alloc0
+	}
+	key := fmt.Sprintf("%d|%d", x.id, bound.id)
 	if u.invDone[key] {
 		return
 	}
@@ -296,13 +301,20 @@ func (u *Unit) assumeTypeInv(x *Term, t types.Type, st *State, guard *Term) {
 		}
 	case SRef:
 		// nil or a live object
-		u.assume(guard, c.Or(c.Eq(x, c.Nil()), c.And(c.Le(c.Int(1), c.Root(x)), c.Lt(c.Root(x), st.alloc))))
+		u.assume(guard, c.Or(c.Eq(x, c.Nil()), c.And(c.Le(c.Int(1), c.Root(x)), c.Lt(c.Root(x), bound))))
+		if pt, ok := t.Underlying().(*types.Pointer); ok {
+			u.ptrFacts = append(u.ptrFacts, ptrFact{x, pt.Elem(), guard, len(u.assumptions)})
+		}
 	case SSlice:
+		if stt, ok := t.Underlying().(*types.Slice); ok {
+			// backing arrays are allocations of their own, typed by their element type
+			u.assume(guard, c.Or(c.Eq(c.SArr(x), c.Nil()), c.And(c.Eq(u.rootType(c.Root(c.SArr(x))), u.arrTypeID(stt.Elem())), c.Eq(c.PathOf(c.SArr(x)), c.PNil()))))
+		}
 		arr := c.SArr(x)
 		u.assume(guard, c.And(
 			c.Le(c.Int(0), c.SOff(x)), c.Le(c.Int(0), c.SLen(x)), c.Le(c.SLen(x), c.SCap(x)),
 			c.Or(c.And(c.Eq(arr, c.Nil()), c.Eq(c.SCap(x), c.Int(0)), c.Eq(c.SOff(x), c.Int(0))),
-				c.And(c.Le(c.Int(1), c.Root(arr)), c.Lt(c.Root(arr), st.alloc)))))
+				c.And(c.Le(c.Int(1), c.Root(arr)), c.Lt(c.Root(arr), bound)))))
 	case SStr:
 		u.assume(guard, c.Le(c.Int(0), u.strLen(x)))
 	}
@@ -430,4 +442,74 @@ type unsupportedErr struct{ msg string }
 func (e unsupportedErr) Error() string { return "unsupported: " + e.msg }
 func unsupported(format string, args ...interface{}) unsupportedErr {
 	return unsupportedErr{fmt.Sprintf(format, args...)}
+}
+
+func (u *Unit) rootType(root *Term) *Term {
+	f := u.c.Func("roottype", []*Sort{SInt}, SInt)
+	return u.c.App(f, root)
+}
+
+func (u *Unit) arrTypeID(elem types.Type) *Term {
+	id := u.typeID(types.NewSlice(elem))
+	iv, _ := id.IntVal()
+	k := int(iv.Int64())
+	if u.elemTypes == nil {
+		u.elemTypes = map[int]types.Type{}
+	}
+	if _, ok := u.elemTypes[k]; !ok {
+		u.elemTypes[k] = elem
+		u.elemOrder = append(u.elemOrder, k)
+	}
+	return id
+}
+
+// embeddable: can a value of type t live inside a value of type outer without crossing a pointer/slice/map?
+func embeddable(t, outer types.Type, depth int) bool {
+	if types.Identical(t, outer) {
+		return true
+	}
+	if depth > 12 {
+		return true
+	}
+	switch o := outer.Underlying().(type) {
+	case *types.Struct:
+		for i := 0; i < o.NumFields(); i++ {
+			if embeddable(t, o.Field(i).Type(), depth+1) {
+				return true
+			}
+		}
+	case *types.Array:
+		return embeddable(t, o.Elem(), depth+1)
+	}
+	return false
+}
+
+// aliasFacts: a *T cannot point into a backing array whose element type cannot contain a T.
+func (u *Unit) aliasFacts(nAssume int) []*Term {
+	c := u.c
+	var out []*Term
+	memo := map[string]bool{}
+	for _, pf := range u.ptrFacts {
+		if pf.at > nAssume || pf.x.open {
+			continue
+		}
+		for _, k := range u.elemOrder {
+			et := u.elemTypes[k]
+			key := pf.elem.String() + "|" + et.String()
+			emb, ok := memo[key]
+			if !ok {
+				emb = embeddable(pf.elem, et, 0)
+				memo[key] = emb
+			}
+			if emb {
+				continue
+			}
+			f := c.Or(c.Eq(pf.x, c.Nil()), c.Neq(u.rootType(c.Root(pf.x)), c.Int(int64(k))))
+			if pf.guard != nil {
+				f = c.Implies(pf.guard, f)
+			}
+			out = append(out, f)
+		}
+	}
+	return out
 }
